@@ -418,3 +418,36 @@ m('C05', 'multigrid: it incremented only on coarse levels', SOLVER,
   'C05.H5')
 n('C05', '_max_level: guard operands swapped', SOLVER,
   "            while n % 2 == 0 and n > 2:", "            while n > 2 and n % 2 == 0:")
+
+# ------------------------------------------------------------------- C17
+m('C17', 'Survey.to_dict: noise_floor dropped', SURV,
+  "            'noise_floor': self.data.noise_floor,\n", "", 'C17.K2')
+m('C17', 'Simulation.to_dict: receiver_interpolation dropped', SIMS,
+  "            'receiver_interpolation': self.receiver_interpolation,\n", "",
+  'C17.K2')
+m('C17', 'Field.to_dict: frequency key renamed', FIELDS,
+  "            'frequency': self._frequency,", "            'freq': self._frequency,",
+  'C17.K2')
+m('C17', 'TensorMesh.to_dict: origin dropped', MESHES,
+  "            'origin': self.origin,\n", "", 'C17.K2')
+m('C17', 'Receiver._serialize: data_type dropped', ELEC,
+  "_serialize = {'relative', 'data_type'} | Wire._serialize",
+  "_serialize = {'relative'} | Wire._serialize", 'C17.K2')
+m('C17', 'Simulation.to_dict emits a key from_dict never reads', SIMS,
+  "            'receiver_interpolation': self.receiver_interpolation,\n",
+  "            'receiver_interpolation': self.receiver_interpolation,\n            'workers_used': self.max_workers,\n",
+  'C17.K2')
+m('C17', 'io: __complex renamed on the writer side', IO,
+  "            key += '__complex'", "            key += '__cplx'", 'C17.K3')
+m('C17', 'io: None sentinel differs', IO,
+  "            value = 'NoneType'", "            value = 'None'", 'C17.K3')
+m('C17', 'io: npz separator differs', IO,
+  "key+'>'+k", "key+'|'+k", 'C17.K3')
+m('C17', 'io.load: h5 arm missing', IO,
+  "    elif fname.endswith('.h5'):\n        data = _hdf5_load(fname)\n", "", 'C17.K3')
+m('C17', 'io reader strips complex tag before array tag', IO,
+  "        if '__array' in key:", "        if '__complex' in key and False:\n            pass\n        if '__array' in key and '__complex' not in key:",
+  'C17.K3')
+n('C17', 'Survey.to_dict key order', SURV,
+  "            'noise_floor': self.data.noise_floor,\n            'relative_error': self.data.relative_error,\n",
+  "            'relative_error': self.data.relative_error,\n            'noise_floor': self.data.noise_floor,\n")
